@@ -62,8 +62,8 @@ class Sized:
 
 
 class Obj:
-    def __init__(self, name, **attrs):
-        self.name = name
+    def __init__(self, _objname, **attrs):
+        self.name = _objname
         self.attrs = dict(attrs)
 
     def __repr__(self):
@@ -103,6 +103,7 @@ class Unsupported(Exception):
 class Outcome:
     def __init__(self, kind, value, imprecise, notes):
         self.kind, self.value, self.imprecise, self.notes = kind, value, imprecise, notes
+        self.trace: List[str] = []
 
     def __repr__(self):
         return "%s%s%s" % (self.kind, "" if self.value is None else "(%r)" % (self.value,), " ~imprecise" if self.imprecise else "")
@@ -115,7 +116,7 @@ OPAQUE_PREDICATES = {"isinstance", "issubclass", "_is_number", "hasattr"}
 class Interp:
     def __init__(self, hier: Hierarchy, dyn: Optional[str] = None,
                  inline: Callable[[str], bool] = lambda m: False,
-                 self_obj: Optional[Obj] = None, max_steps=20000):
+                 self_obj: Optional[Obj] = None, max_steps=20000, call_hook=None):
         self.hier = hier
         self.dyn = dyn
         self.inline = inline
@@ -126,6 +127,9 @@ class Interp:
         self.notes: List[str] = []
         self.steps = 0
         self.max_steps = max_steps
+        # call_hook(name_text, args, kwargs) -> value, or NotImplemented to fall through
+        self.call_hook = call_hook
+        self.trace: List[str] = []
 
     # ------------------------------------------------------------ driver
     def run_all(self, f: Func, args: Dict[str, Any]) -> List[Outcome]:
@@ -137,7 +141,10 @@ class Interp:
             self.imprecise = False
             self.notes = []
             self.steps = 0
-            outs.append(self._run_once(f, args))
+            self.trace = []
+            o = self._run_once(f, args)
+            o.trace = list(self.trace)
+            outs.append(o)
             # next choice sequence
             while self.choices and self.choices[-1] is True:
                 self.choices.pop()
@@ -243,6 +250,19 @@ class Interp:
             raise _Break()
         elif isinstance(st, (ast.Import, ast.ImportFrom)):
             return
+        elif isinstance(st, ast.With):
+            for item in st.items:
+                v = self.eval(item.context_expr, env, f)
+                if item.optional_vars is not None:
+                    self.assign(item.optional_vars, v, env, f)
+            self.exec_block(st.body, env, f)
+        elif isinstance(st, ast.AugAssign):
+            cur = self.eval(st.target, env, f)
+            v = self.eval(st.value, env, f)
+            if isinstance(st.op, ast.Add) and isinstance(cur, list) and isinstance(v, list):
+                cur.extend(v)
+            else:
+                self.assign(st.target, TOP, env, f)
         else:
             raise Unsupported("statement %s" % type(st).__name__)
 
@@ -432,6 +452,26 @@ class Interp:
             return self.eval_call(e, env, f)
         if isinstance(e, ast.Lambda):
             return TOP
+        if isinstance(e, (ast.ListComp, ast.GeneratorExp)) and len(e.generators) == 1:
+            g = e.generators[0]
+            it = self.eval(g.iter, env, f)
+            if isinstance(it, dict):
+                it = list(it)
+            if not isinstance(it, (list, tuple)):
+                return TOP
+            out = []
+            sub = dict(env)
+            for item in it:
+                self.assign(g.target, item, sub, f)
+                keep = True
+                for cond in g.ifs:
+                    t = self.truth(self.eval(cond, sub, f))
+                    if t is TOP:
+                        return TOP
+                    keep = keep and t
+                if keep:
+                    out.append(self.eval(e.elt, sub, f))
+            return out
         if isinstance(e, (ast.ListComp, ast.GeneratorExp, ast.DictComp, ast.SetComp)):
             return TOP
         if isinstance(e, ast.BinOp):
@@ -446,8 +486,17 @@ class Interp:
         fn = c.func
         args = [self.eval(a, env, f) for a in c.args if not isinstance(a, ast.Starred)]
         kwargs = {k.arg: self.eval(k.value, env, f) for k in c.keywords if k.arg is not None}
+        if self.call_hook is not None:
+            r = self.call_hook(norm(fn), args, kwargs)
+            if r is not NotImplemented:
+                return r
         if isinstance(fn, ast.Name):
             n = fn.id
+            if n in ("any", "all") and args and isinstance(args[0], (list, tuple)):
+                ts = [self.truth(x) for x in args[0]]
+                if n == "any":
+                    return True if any(t is True for t in ts) else (TOP if any(t is TOP for t in ts) else False)
+                return False if any(t is False for t in ts) else (TOP if any(t is TOP for t in ts) else True)
             if n == "callable":
                 v = args[0]
                 if v is TOP:
@@ -522,6 +571,9 @@ class Interp:
                     return self.invoke(tgt, args, kwargs, env.get(selfname))
                 return None  # not inlined: treated as a passing no-op
             base = self.eval(recv, env, f)
+            if isinstance(base, list) and m == "append" and args:
+                base.append(args[0])
+                return None
             if isinstance(base, dict):
                 if m == "items":
                     return [(k, v) for k, v in base.items()]
